@@ -278,6 +278,20 @@ Theorem C05_source_contribution_weighted : forall (g : qadj) (src : nat),
   get 0 bet v + Qsum (map (fun t => pair_term g v src t) (seq 0 (length g))).
 Proof. exact source_contribution_w. Qed.
 
+(* the fuel the model passes (2 + |E| + n pops) is never exhausted: every pop either drops a stale
+   entry or finalises a node, and a finalised node pushes at most one entry per adjacency entry *)
+Theorem C05_stage_dijkstra_total : forall (g : qadj) (src : nat),
+  adj_ok (length g) g = true -> (src < length g)%nat ->
+  (forall v e, In e (get [] g v) -> exists c, snd e = inject_Z c /\ (0 < c)%Z) ->
+  forall lw, exists s, bdijkstra lw g src = Some s.
+Proof. exact bdijkstra_total. Qed.
+
+Theorem C05_weighted_total : forall (g : qadj),
+  adj_ok (length g) g = true ->
+  (forall v e, In e (get [] g v) -> exists c, snd e = inject_Z c /\ (0 < c)%Z) ->
+  forall lw, exists bet, bc_core lw true g = Some bet.
+Proof. exact weighted_core_total. Qed.
+
 (* ---- weighted mode, in full ---- *)
 Theorem C05_brandes_weighted : forall (g : qadj),
   adj_ok (length g) g = true -> (forall v, NoDup (map fst (get [] g v))) ->
